@@ -196,3 +196,101 @@ func verifSameFieldsAny(a, b []DecodedField) bool {
 	}
 	return verifSameFields(a, b)
 }
+
+// 1b. a flowset that is undecodable because its (announced) template names an element the
+// information model does not have — as an ordinary field in first or second position, or as the
+// scope field of an options template. It is skipped as a whole; the records of the other
+// flowsets are emitted exactly as if it were absent.
+func VerifV9UnknownElementSet() {
+	m, a, t := verifSetup()
+	bid := verifNondetU16()
+	verifAssume(verifAll(bid > 255, bid != t.tid, bid != t.decoy))
+	if verifKnown("C04-hash-collision") {
+		verifAssume(verifAll(verifFNV4(a, bid) != verifFNV4(a, t.tid), verifFNV4(a, bid) != verifFNV4(a, t.decoy)))
+	}
+	unk := verifNondetU16()
+	_, have := ipfix.InfoModel[ipfix.ElementKey{0, unk}]
+	verifAssume(!have)
+	shape := verifCase(3)
+	{
+		tl := 4 + 4 + 8
+		if shape == 2 {
+			tl = 4 + 6 + 8 + 2
+		}
+		w := &verifW{b: make([]byte, 20+tl)}
+		verifWriteHeader(w)
+		known := t.f1.spec.ElementID
+		switch shape {
+		case 0:
+			w.u16(0)
+			w.u16(uint16(tl))
+			w.u16(bid)
+			w.u16(2)
+			w.u16(unk)
+			w.u16(4)
+			w.u16(known)
+			w.u16(4)
+		case 1:
+			w.u16(0)
+			w.u16(uint16(tl))
+			w.u16(bid)
+			w.u16(2)
+			w.u16(known)
+			w.u16(4)
+			w.u16(unk)
+			w.u16(4)
+		default:
+			w.u16(1)
+			w.u16(uint16(tl))
+			w.u16(bid)
+			w.u16(4)
+			w.u16(4)
+			w.u16(unk)
+			w.u16(4)
+			w.u16(known)
+			w.u16(4)
+			w.u16(0)
+		}
+		msg, err := NewDecoder(a, w.b).Decode(m)
+		verifAssume(verifAll(err == nil, msg != nil))
+	}
+	r1, r2 := verifArbRec(t), verifArbRec(t)
+	ds := 4 + 4 + t.l
+	tot := 20 + 2*ds
+	w := &verifW{b: make([]byte, tot)}
+	verifWriteHeader(w)
+	verifDataSet(w, t, r1)
+	verifDataSet(w, t, r2)
+	ref, _ := NewDecoder(a, w.b).Decode(m)
+	verifAssume(ref != nil)
+	verifAssert(len(ref.DataSets) == 2, "the unperturbed packet yields its two records")
+	p := verifCase(3)
+	blen := [3]int{8, 16, 12}[verifCase(3)]
+	body := verifNondetBytes(blen)
+	bad := func(w *verifW) {
+		w.u16(bid)
+		w.u16(uint16(4 + blen))
+		for i := 0; i < blen; i++ {
+			w.u8(body[i])
+		}
+	}
+	w2 := &verifW{b: make([]byte, tot+4+blen)}
+	verifWriteHeader(w2)
+	if p == 0 {
+		bad(w2)
+	}
+	verifDataSet(w2, t, r1)
+	if p == 1 {
+		bad(w2)
+	}
+	verifDataSet(w2, t, r2)
+	if p == 2 {
+		bad(w2)
+	}
+	got, _ := NewDecoder(a, w2.b).Decode(m)
+	verifAssert(got != nil, "a packet with an undecodable flowset is still decoded")
+	verifAssert(len(got.DataSets) == 2, "the records of the other flowsets are all emitted, and nothing else (no record is made up from a flowset whose template names an unknown element)")
+	verifAssert(verifSameFields(got.DataSets[0], ref.DataSets[0]), "first record unchanged")
+	verifAssert(verifSameFields(got.DataSets[1], ref.DataSets[1]), "second record unchanged")
+	verifReach("end")
+}
